@@ -218,23 +218,56 @@ CONTRACTS = [ModuleBase(), InstanceBase(), Instantiable(), Tops(), V_MODULE, V_B
 VERIFY = [c for c in CONTRACTS if not isinstance(c, Fail)]
 
 
-def audit_cache_ownership():
-    """Syntactic frame obligation: no function outside ElabPass (base.py) mentions the class-level cache or its
-    pending/done sets.  Re-derived from the AST of every pass file on each run. -> list of offending (file, line)"""
+MUTATORS = {"add", "discard", "remove", "clear", "update", "difference_update", "intersection_update",
+            "symmetric_difference_update", "pop", "append", "extend", "insert", "__setitem__", "__delitem__", "setdefault",
+            "popitem"}
+
+
+READERS = {"copy", "get", "keys", "values", "items", "issubset", "issuperset", "union", "intersection", "difference",
+           "isdisjoint", "__contains__", "__len__", "__iter__", "index", "count"}
+
+
+def _mentions(node, attr):
+    return any(isinstance(n, ast.Attribute) and n.attr == attr for n in ast.walk(node))
+
+
+def audit_cache_ownership(with_escapes=False):
+    """Syntactic frame obligation: nothing outside ElabPass (base.py) WRITES the class-level pass caches (their pending /
+    done sets) or a module's `_elab_error`.  Re-derived from the AST of every elaboration file on each run.
+    A write is: an assignment / augmented assignment / deletion whose target goes through `CLASS_LEVEL_CACHE` (or is
+    `<x>._elab_error`), a call of a mutating container method on an expression through `CLASS_LEVEL_CACHE`, or
+    setattr/delattr naming `_elab_error`.  Reads are not writes.  Binding the cache (or one of its sets) to another name or
+    passing it to a call lets it escape this audit: reported separately (undecided, not a violation).
+    -> offending (file, line) list [, escapes]"""
     from pyvc import loader
     root = os.path.join(loader.REPO, "hdl21", "elab")
-    bad = []
+    bad, escapes = [], []
     for dp, _, files in os.walk(root):
         for fn in files:
             if not fn.endswith(".py"):
                 continue
             path = os.path.join(dp, fn)
+            if path.endswith(os.path.join("passes", "base.py")):
+                continue
             tree = ast.parse(open(path).read())
             for n in ast.walk(tree):
-                if isinstance(n, ast.Attribute) and n.attr in ("CLASS_LEVEL_CACHE",):
-                    if not path.endswith(os.path.join("passes", "base.py")):
+                if isinstance(n, (ast.Assign, ast.AugAssign, ast.AnnAssign, ast.Delete)):
+                    targets = n.targets if isinstance(n, (ast.Assign, ast.Delete)) else [n.target]
+                    for t in targets:
+                        if _mentions(t, "CLASS_LEVEL_CACHE") or (isinstance(t, ast.Attribute) and t.attr == "_elab_error"):
+                            bad.append((path, n.lineno))
+                    value = getattr(n, "value", None)
+                    if value is not None and isinstance(n, (ast.Assign, ast.AnnAssign)) and _mentions(value, "CLASS_LEVEL_CACHE") \
+                            and not isinstance(value, (ast.Compare, ast.BoolOp, ast.Call)):
+                        escapes.append((path, n.lineno))
+                elif isinstance(n, ast.Call):
+                    f = n.func
+                    if isinstance(f, ast.Attribute) and f.attr not in READERS and _mentions(f.value, "CLASS_LEVEL_CACHE"):
+                        bad.append((path, n.lineno))       # a mutator, or a method of the cache object itself (reset, ...)
+                    elif isinstance(f, ast.Name) and f.id in ("setattr", "delattr") and len(n.args) >= 2 and \
+                            isinstance(n.args[1], ast.Constant) and n.args[1].value in ("_elab_error", "CLASS_LEVEL_CACHE"):
                         bad.append((path, n.lineno))
-                if isinstance(n, ast.Attribute) and n.attr == "_elab_error" and \
-                        not path.endswith(os.path.join("passes", "base.py")):
-                    bad.append((path, n.lineno))
-    return bad
+                    elif any(_mentions(a_, "CLASS_LEVEL_CACHE") for a_ in list(n.args) + [k.value for k in n.keywords]) and \
+                            not (isinstance(f, ast.Name) and f.id in ("len", "bool", "list", "sorted", "print", "repr", "str", "isinstance")):
+                        escapes.append((path, n.lineno))
+    return (bad, escapes) if with_escapes else bad
